@@ -71,6 +71,7 @@ func cmdRun(args []string) int {
 	maxSteps := fs.Int("max-steps", 2000000, "max instructions per path")
 	maxPaths := fs.Int("max-paths", 0, "abort after this many paths (0 = unlimited)")
 	deadline := fs.Duration("deadline", 0, "overall deadline")
+	regexExact := fs.Int("regex-exact", 0, "exact regexp results (cell-vector forking) for symbolic subjects of at most N bytes; 0 = over-approximating models only")
 	bytesMode := fs.Bool("bytes", false, "strings are byte strings 0..255; range/WriteRune/utf8.ValidString follow UTF-8")
 	out := fs.String("out", "", "write JSON result here")
 	solver := fs.String("solver", "z3", "z3|z3new|cvc5")
@@ -112,6 +113,7 @@ func cmdRun(args []string) int {
 	cfg := sym.Config{Unwind: *unwind, MaxSteps: *maxSteps, MaxPaths: *maxPaths, MaxDelays: *delays, Jobs: *jobs,
 		ExecPrefixes: []string{"github.com/ErdemOzgen/blackdagger"}, TraceInstr: *trace, PollUnwind: *poll, StopAtFirst: *stopFirst, ConcreteClock: *cclock, UnwindCut: *ucut}
 	sym.ByteMode = *bytesMode
+	sym.RegexExact = *regexExact
 	if *deadline > 0 {
 		cfg.Deadline = time.Now().Add(*deadline)
 	}
